@@ -215,6 +215,36 @@ def _run(ctx):
               fsite(ctx, HELPER["volume"][0]))
     ctx.floor("R1", 40)
 
+    # ---- stock materials given as Formula objects: the mixers read them, never change them, and read them again next time --
+    dd_, dn_ = sp.symbols("d_mix d_new", positive=True)
+    for mname in ("mix_by_weight", "mix_by_volume"):
+        mixer = I.global_name("formulas", mname)
+        msite = fsite(ctx, f"formulas.{mname}")
+        f1, f2, f3 = comps()
+        for other_q in (sp.Integer(0), q[1]):
+            rr = raises(lambda: I.call(mixer, [f1, q[0], f3, other_q], {"density": dd_, "name": "mixture"}))
+            if rr is not None:
+                ctx.fail("R1", f"{mname}(stock, q, other, {other_q}, density=, name=)", f"raises {rr}", msite)
+                continue
+            res_ = I.call(mixer, [f1, q[0], f3, other_q], {"density": dd_, "name": "mixture"})
+            ctx.check(res_ is not f1 and res_ is not f3, "R1", f"{mname} with the other quantity {other_q}: the mixture is a new formula, not one of the parts",
+                      "a part is handed back as the mixture", msite)
+            eq(ctx, "R1", f"{mname} with the other quantity {other_q}: the density= keyword is not written onto a part", I.getattr(f1, "density"), d[0], msite)
+            ctx.check(I.getattr(f1, "name") in (None, ""), "R1", f"{mname} with the other quantity {other_q}: the name= keyword is not written onto a part",
+                      f"the part is now named {I.getattr(f1, 'name')!r}", msite)
+        # the same stock objects mixed again after a density was corrected: the new density is what counts
+        f1, f2, f3 = comps()
+        I.call(mixer, [f1, q[0], f3, q[1]], {})
+        I.setattr(f1, "density", dn_)
+        again_ = I.call(mixer, [f1, q[0], f3, q[1]], {})
+        g1 = I.call(fm, [{Fe: a[0]}], {"density": dn_})
+        g3 = I.call(fm, [{H: sp.Integer(2)}], {"density": d[2]})
+        fresh_ = I.call(mixer, [g1, q[0], g3, q[1]], {})
+        eq(ctx, "R1", f"{mname} of the same stock objects after one density was corrected: density of the mixture", I.getattr(again_, "density"),
+           I.getattr(fresh_, "density"), msite)
+        eq(ctx, "R1", f"{mname} of the same stock objects after one density was corrected: iron fraction", I.getattr(again_, "mass_fraction")[Fe],
+           I.getattr(fresh_, "mass_fraction")[Fe], msite)
+
     # ---- R2 call forms and string forms reach the same helpers ---------------------
     aq = lambda role: _action_qual(action(I, w, role))
     f1, f2, f3 = comps()
